@@ -8,7 +8,7 @@ from .guardlib import gval, comparisons, lt_true, ge_true
 
 MANIFEST = {
     "text": "Who-may-append and dispatch rules: only comments, the doctype and the root element created by create_root are ever appended to the document node, and no text; create_root is called only where the BeforeHtml mode is left (and for fragments); in the modes whose current node can be html (or nothing) text is inserted only for whitespace tokens; BeforeHead / AfterHead 'anything else' insert head / body; the frameset replacement detaches body first under frameset_ok; empty character tokens never reach the rules (the LF strip precedes the emptiness test, SplitWhitespace never enqueues an empty remainder) and the whitespace classification is ASCII everywhere; RcDom merges adjacent text. Plus the reviewed normal forms of the tree builder. In a frameset document no formatting element may be reconstructed under html (R06.7: violated as the standard prescribes, recorded as known finding K1); the sets bounding 'clear the stack back to a ... context' contain html and template (R06.8).",
-    "note": "Decides R06.1-R06.8 (necessary conditions); R06.7 reports one known finding (K1: '<b><frameset></frameset></html> ' gives html an extra element child, prescribed by WHATWG). Not decided: that no token sequence can place a second element under the document or non-whitespace text under html through foster parenting / fragment parsing. Also decided: the special category is complete for the certain names (R06.10). Round 6: reset-insertion-mode table (R06.13 = R02.10) and selectedcontent replace-all (R06.14 = R20.9) reported here too.",
+    "note": "Decides R06.1-R06.8 (necessary conditions); R06.7 reports one known finding (K1: '<b><frameset></frameset></html> ' gives html an extra element child, prescribed by WHATWG). Not decided: that no token sequence can place a second element under the document or non-whitespace text under html through foster parenting / fragment parsing. Also decided: the special category is complete for the certain names (R06.10). Round 6: reset-insertion-mode table (R06.13 = R02.10) and selectedcontent replace-all (R06.14 = R20.9) reported here too. Round 8: R06.9 also compares the end-of-file row of every non-skeleton mode; R06.15 = R05.5 (DOCTYPE only in the initial mode).",
     "technique": "who-may-append (resolved sink calls) + dispatch rules over the normal form of the tree builder's step",
 }
 LEVEL = "other"
